@@ -1008,6 +1008,17 @@ def _nnf(test, pol, out):
     """conjuncts of `test` (pol=True) or of `not test` (pol=False) as (source, polarity); `!=`, `not in`, `is not` are written positively.
     A fact that is not a conjunction (a true `or`, a false `and`) is ONE conjunct, written canonically (De Morgan applied) as
     OR(<literal>; <literal>; ...) with sorted members, each member a literal or AND(...)"""
+    if isinstance(test, ast.IfExp):
+        # a conditional with a constant boolean arm, read as a truth value: `True if a else x` == a or x, `x if a else False` == a and x ...
+        t, b_, o_ = test.test, test.body, test.orelse
+
+        def _cb(x, v):
+            return isinstance(x, ast.Constant) and x.value is v
+        neg = ast.UnaryOp(op=ast.Not(), operand=t)
+        conv = (ast.BoolOp(op=ast.Or(), values=[t, o_]) if _cb(b_, True) else ast.BoolOp(op=ast.And(), values=[neg, o_]) if _cb(b_, False)
+                else ast.BoolOp(op=ast.Or(), values=[neg, b_]) if _cb(o_, True) else ast.BoolOp(op=ast.And(), values=[t, b_]) if _cb(o_, False) else None)
+        if conv is not None:
+            return _nnf(conv, pol, out)
     if isinstance(test, ast.UnaryOp) and isinstance(test.op, ast.Not):
         return _nnf(test.operand, not pol, out)
     if isinstance(test, ast.BoolOp) and ((isinstance(test.op, ast.And) and pol) or (isinstance(test.op, ast.Or) and not pol)):
